@@ -131,6 +131,7 @@ def explore(body, timeout: float = 60.0, per_path_timeout: Optional[float] = Non
             verdict, info = verdict
         if verdict:
             with NoTracing():
+                state["reached"] = state.get("reached", 0) + 1
                 for k, v in _PATH_NOTES.items():
                     all_notes[k] = all_notes.get(k, 0) + 1
             return None
@@ -202,9 +203,11 @@ def explore(body, timeout: float = 60.0, per_path_timeout: Optional[float] = Non
         res.reason = "no result (%s)" % (e,)
         return res
     stats = root.stats() if hasattr(root, "stats") else None
-    if exhausted and st == VerificationStatus.CONFIRMED and unknowns == 0:
+    if exhausted and st == VerificationStatus.CONFIRMED and unknowns == 0 and state.get("reached", 0) == 0:
+        res.reason = "vacuous: no path reached the assertion (every path was discarded by an assumption)"
+    elif exhausted and st == VerificationStatus.CONFIRMED and unknowns == 0:
         res.status = "confirmed"
-        res.confirmed_paths = res.paths
+        res.confirmed_paths = state.get("reached", 0)
     else:
         why = []
         if not exhausted:
